@@ -42,13 +42,13 @@ CHECKS.update({
  "C05": dict(
   level="exploration",
   technique="exhaustive enumeration of all ordered operand pairs over a value alphabet x 6 operators against XPath 1.0 section 3.4",
-  text="2 booleans, 11 numbers, 12 strings and every node-set of size <=4 (both tiers) over 8 elements: all ordered pairs x {=,!=,<,<=,>,>=}, operands as variables and (every 7th pair) as literals/paths.",
+  text="2 booleans, 11 numbers, 12 strings and every node-set of size <=3 (thorough: 4) over 10 elements whose values lie on both sides of zero, include zero and non-numbers: all ordered pairs x {=,!=,<,<=,>,>=}, operands as variables and (every 7th pair) as literals/paths.",
   note="Trusted: refxp.Compare. Values outside the alphabet not covered.",
   ref="2 C05"),
  "C06": dict(
   level="exploration",
   technique="exhaustive enumeration of all pairs of 40 boundary doubles x arithmetic operators and numeric functions, compared by bit pattern with Go float64",
-  text="All ordered pairs of 40 boundary doubles x {+,-,*,div,mod}, unary minus, floor/ceiling/round of each, as variables and as literals; sum()/count() over all node-sets of size <=3 from a 10-text alphabet; every operator and rounding function with node-set operands in every storage order (all permutations of every 2-3 subset) and with reverse-axis paths as operands. No error or 'xpath query panic' allowed.",
+  text="All ordered pairs of 40 boundary doubles x {+,-,*,div,mod}, unary minus, floor/ceiling/round of each, as variables and as literals; sum()/count() over all node-sets of size <=3 from a 10-text alphabet; sum() over every sequence of <=4 distinct nodes from 9 texts whose sum depends on rounding, cancellation and overflow to infinity (any order of IEEE additions accepted); every operator and rounding function with node-set operands in every storage order (all permutations of every 2-3 subset) and with reverse-axis paths as operands. No error or 'xpath query panic' allowed.",
   note="Open known finding C06-round-negative-tie (pinned by the repository's TestFunctionRound). Sign of zero not compared for round().",
   ref="2 C06"),
  "C07": dict(
@@ -102,7 +102,7 @@ CHECKS.update({
  "C19": dict(
   level="exploration",
   technique="bounded-exhaustive enumeration of reflect-generated target types x tag expressions x nodes against values derived from separate Exec calls",
-  text="40 field/element types (all supported kinds, pointer chains, nestings, and the unsupported kinds) x 30 tag expressions (both tiers) x every element of 3 documents as *T and **T; slice targets over node-sets of 0-3 nodes in both orders; 36 ill-shaped targets and results; expected values from separate Exec calls plus the statement's conversion table; never a panic; untagged fields untouched.",
+  text="50 field/element types (all supported kinds, pointer chains, nestings, the unsupported kinds, and defined types of supported kinds - error or converted value, never a panic) x 30 tag expressions (both tiers) x every element of 3 documents as *T and **T; slice targets over node-sets of 0-3 nodes in both orders; 36 ill-shaped targets and results; expected values from separate Exec calls plus the statement's conversion table; never a panic; untagged fields untouched.",
   note="Exec is trusted here (verified by C01-C07). Unrepresentable float->int conversions only required not to panic.",
   ref="2 C19"),
  "C13": dict(
@@ -114,7 +114,7 @@ CHECKS.update({
  "C14": dict(
   level="model_checking",
   technique="stateless model checking of the real code under a cooperative scheduler: DFS over all thread schedules with iterative preemption bounding; library through proxy cursors whose accessors are scheduling points, CLI through on-the-fly source rewriting + go build -overlay (one process per execution)",
-  text="Library: 13 scenarios of 2-3 threads x 1-2 real Exec calls sharing tree, compiled expressions, caller maps and a caller slice with spare capacity; every schedule with <=2 (thorough 3) preemptions: each call returns its serial result, shared slices unchanged at every scheduling point, deep fingerprints unchanged. CLI: the real main() (rewritten: go statements, channel ops, WaitGroup/Mutex, every stdout/stderr write are scheduling points) on 6 file/flag scenarios with -c 2..4: no deadlock, stdout = concatenation of exactly the serial per-file blocks (contiguous, intact, any order), nothing written after main returns, diagnostics present. Auxiliary: the same library bodies free-running under the race detector.",
+  text="Library: 13 scenarios of 2-3 threads x 1-2 real Exec calls sharing tree, compiled expressions, caller maps and a caller slice with spare capacity; every schedule with <=2 (thorough 3) preemptions: each call returns its serial result, shared slices unchanged at every scheduling point, deep fingerprints unchanged. Worker bodies: 7 scenarios of 2-3 documents (XML with attributes/namespaces, HTML, JSON) read concurrently through the library's parsers with a scheduling point at every Pull and every 12-byte Read, every schedule with <=3 (thorough 4) preemptions, each tree equal to the tree built alone. CLI: the real main() (rewritten: go statements, channel ops, WaitGroup/Mutex, every stdout/stderr write are scheduling points) on 6 file/flag scenarios with -c 2..4: no deadlock, stdout = concatenation of exactly the serial per-file blocks (contiguous, intact, any order), nothing written after main returns, diagnostics present. Auxiliary: the same library bodies and concurrent document reads free-running under the race detector.",
   note="Partial-order reduction for the library half: two audited executions per scenario take the full fingerprint of everything shared (proxy lists with spare capacity, real tree, compiled expressions, binding maps, caller slices, and - through a generated build overlay - every package-level variable of the library) at EVERY scheduling point, and a go/ast scan looks for writes to package-level variables outside init(); if nothing changes, every step is a read of shared state, steps are independent and all interleavings are trace-equivalent to the audited ones (evidence key library_reduction; not claimed otherwise). The CLI search prunes decisions already expanded from an identical global state (state key = per-thread operation/observation histories + channel contents + WaitGroup/mutex states + writes so far; validated at bound 1 against the unpruned search on every run). Quick caps each scenario of the bounded search (25000 / 4000 executions) and then reports exhaustive:false with the bounds completed. Interleavings below the granularity of tree accesses / user-function calls are only covered by the auxiliary -race pass. No hook is committed to /repo.",
   ref="2 C14"),
  "C20": dict(
@@ -126,7 +126,7 @@ CHECKS.update({
  "C15": dict(
   level="exploration",
   technique="exhaustive enumeration of all strings up to a length bound over five byte/token alphabets through every public entry point, in worker subprocesses",
-  text="All expression token strings (<=3/4 tokens incl. nil variables and user functions returning (nil,nil)/errors/panicking) built and executed on 2 documents under 3 binding sets; all expression byte strings <=4/5 over 23 symbols incl. invalid UTF-8, NUL and valid multi-byte characters; all XML/JSON byte strings <=5/6 and HTML token strings <=4/5 through the readers followed by 6 queries; the well-typed C01/C08 universes from every node (no 'xpath query panic'); an Unmarshal sweep (7 result shapes x 8 target shapes x 40 field types x tags); nesting-depth sweeps in subprocesses. Oracle: returns (value,nil) or (_,err); no panic escapes; the process survives.",
+  text="All expression token strings (<=3/4 tokens incl. nil variables and user functions returning (nil,nil)/errors/panicking) built and executed on 2 documents under 3 binding sets; all expression byte strings <=4/5 over 23 symbols incl. invalid UTF-8, NUL and valid multi-byte characters; all XML/JSON byte strings <=5/6 and HTML token strings <=4/5 through the readers followed by 6 queries; the well-typed C01/C08 universes from every node (no 'xpath query panic'); an Unmarshal sweep (7 result shapes x 8 target shapes x 50 field types incl. defined types x tags); nesting-depth sweeps in subprocesses. Oracle: returns (value,nil) or (_,err); no panic escapes; the process survives.",
   note="Bounded exhaustive, not coverage-guided. Unmarshal targets are covered by C19. Termination of pathological parses (the GLL parser is super-linear in '/*/*...') beyond the sweep sizes is not judged.",
   ref="2 C15"),
 })
